@@ -219,7 +219,7 @@ func insertAt(body *[]ref.Node, i int, n ref.Node) {
 func useNode(name string) ref.Node { return &ref.Print{E: &ref.DataRef{Name: name}} }
 
 var c07Kinds = []string{"undeclared-name", "use-after-block", "use-before-def", "self-reference", "loop-var-after-loop", "loop-var-in-ifempty", "loop-var-in-collection",
-	"unused-param", "unused-let", "let-named-ij", "undeclared-call-param", "missing-required-param", "unknown-callee", "both-param-styles", "alias-of-another-file"}
+	"unused-param", "unused-let", "let-named-ij", "undeclared-call-param", "missing-required-param", "unknown-callee", "both-param-styles", "alias-of-another-file", "let-named-like-callee-param"}
 
 // inject applies the site-th injection of the kind to the bundle in place; ok=false when there is no such site.
 func inject(b *ref.Bundle, kind string, site int) (ok bool, what string) {
@@ -347,6 +347,51 @@ func inject(b *ref.Bundle, kind string, site int) (ok bool, what string) {
 		c.Params = append(c.Params, ref.Param{Name: "zq7", E: &ref.Lit{V: ref.Int(1)}})
 		c.SelfClose = false
 		return true, "call passes param zq7 the callee does not declare"
+	case "let-named-like-callee-param":
+		// {let $p: 1 /} right before {call X data="all" /} where X declares a param p the caller does not have: data="all"
+		// hands over the caller's data, never its local variables, so the let is used by nothing
+		k := 0
+		for _, blk := range blocks {
+			for idx, n := range *blk.body {
+				c, ok := n.(*ref.CallT)
+				if !ok || !c.DataAll {
+					continue
+				}
+				var callee *ref.Template
+				for _, f := range b.Files {
+					for _, t := range f.Templates {
+						if f.FQ(t) == c.Target {
+							callee = t
+						}
+					}
+				}
+				if callee == nil || blk.tmpl == nil {
+					continue
+				}
+				for _, p := range callee.Params {
+					has := false
+					for _, q := range blk.tmpl.Params {
+						if q.Name == p.Name {
+							has = true
+						}
+					}
+					for _, q := range c.Params {
+						if q.Name == p.Name {
+							has = true
+						}
+					}
+					if has {
+						continue
+					}
+					if k == site {
+						insertAt(blk.body, idx, &ref.LetVal{Name: p.Name, E: &ref.Lit{V: ref.Int(1)}})
+						return true, "let $" + p.Name + " is used by nothing (the callee of the data=\"all\" call after it has a param of that name)"
+					}
+					k++
+				}
+			}
+		}
+		return false, ""
 	case "alias-of-another-file":
 		// {call c.t} where {alias a.b.c} stands in another file of the bundle, not in this one: an unknown callee
 		k := 0
